@@ -58,6 +58,9 @@ int __wrap_sigaction(int sig, const struct sigaction *act, struct sigaction *old
 		disp[sig].h = act->sa_handler;
 		disp[sig].mask = act->sa_mask;
 		disp[sig].set = 1;
+		/* installing a handler happens-before every delivery to it */
+		if (memrec_words)
+			sync_log("rel", 4000 + sig);
 		tr("\"e\":\"Disp\",\"sig\":%d,\"h\":\"%s\"}", sig, hname(act->sa_handler));
 	}
 	return 0;
@@ -97,6 +100,8 @@ int simk_sigpoint(void)
 			continue;
 		tpend[me][s] = 0;
 		void (*h)(int) = disp[s].set ? disp[s].h : SIG_DFL;
+		if (memrec_words)
+			sync_log("acq", 4000 + s);
 		tr("\"e\":\"SigDlv\",\"sig\":%d,\"h\":\"%s\",\"pid\":%d}", s, hname(h), (int)cur_pid);
 		if (h == SIG_IGN || h == SIG_DFL)
 			continue;	/* default action is not simulated */
